@@ -16,7 +16,7 @@ NAMESPACE = "Simu.C20"
 THEOREMS = ["dims3_eq_dims4", "nb_pos", "box_inside_grid", "index_cast_defined", "index_in_range",
             "index_in_range_any_floor", "voxel_contains", "index_monotone", "index_monotone_of_monotone_floor",
             "flatten_lt", "flatten_injective", "flatten_surjective", "write_in_range", "reads_in_range",
-            "retrievable4", "retrievable3", "stored3", "index_adjacent", "neighbour_voxel_visited",
+            "retrievable4", "retrievable3", "stored3", "floor_adjacent", "index_adjacent", "neighbour_voxel_visited",
             "neighbourhood_complete4", "neighbourhood_complete4_euclid",
             "neighbourhood_complete3", "neighbourhood_complete3_euclid",
             "content_exactly_once4", "content_exactly_once3"]
@@ -287,6 +287,8 @@ def evaluate(V, cases, lines, impl, model, tier, proof_ok, tally, samples):
     for i, c in enumerate(cases):
         if i >= len(impl):
             break
+        if impl[i] == "crash":
+            continue
         o = parse_out(impl[i])
         if o is None:
             V.fail_input("unparseable harness answer %r" % impl[i][:200], {"line": lines[i], "case": c})
@@ -324,20 +326,29 @@ def run(ctx):
         if not ok:
             V.fail_tie("proof", "leanchecker rejected SimuVerif.Properties.C20", log=log)
     exe, rebuilt = vlib.build_repo.build_harness(os.path.join(vlib.VERIF, "harness", "h_grid.cpp"), "h_grid", link_repo=False)
-    n = 2500 if tier == "quick" else 60000
+    n = 5000 if tier == "quick" else 60000
     if not proof["ok"]:
         n = max(n, 20000)      # a proof broke: widen the search for a concrete failing input
     r = Rng(seed)
     stats = {}
     cases = list(CORPUS) + [gen_case(r, stats) for _ in range(n)]
     lines = [line_of(c) for c in cases]
-    impl, rc, err = vlib.run_lines(exe, lines, timeout=1500)
-    crashed = None
-    if rc != 0 or len(impl) != len(lines):
+    # a scenario on which the real code dies (sanitizer report) is a failing input; the rest is still evaluated
+    impl, crashed, start = [], None, 0
+    while start < len(lines):
+        o, rc, err = vlib.run_lines(exe, lines[start:], timeout=1500)
+        impl += o
+        if rc == 0 and len(impl) == len(lines):
+            break
         k = min(len(impl), len(lines) - 1)
-        crashed = k
-        V.fail_input("the real grid code ended abnormally (rc=%s) on this scenario: %s" % (rc, err[-700:]),
-                     {"line": lines[k], "case": cases[k]}, key=None)
+        if crashed is None:
+            crashed = k
+            V.fail_input("the real grid code ended abnormally (rc=%s) on this scenario: %s" % (rc, err[-700:]),
+                         {"line": lines[k], "case": cases[k]}, key=None)
+        impl = impl[:k] + ["crash"]
+        start = k + 1
+        if impl.count("crash") >= 8:
+            break
     drv = vlib.driver_path("drv_c20")
     model = None
     if os.path.exists(drv) and "error" not in gen.get("Grid", {}):
